@@ -129,64 +129,70 @@ theorem shiftLeft_erase (vals : List Int) (index : Nat) (h : index < vals.length
     · omega
     · simp [h1, h2, List.getElem?_eq_none h3]
 
-/-! ### calCapacity (generated from the source) never divides by zero and never truncates -/
+/-! ### calCapacity (regenerated from the source on every run) -/
+
+/-- The reading of `calCapacity` the list and heap models were written against.  The regenerated
+    translation of the current source must equal it (`calCapacity_eq_ref`): this is the obligation
+    that notices an edited threshold, factor or guard. -/
+def nz (l : Int) : Int := if l = 0 then 1 else l
+
+def calCapacityRef (c l : Int) : Option (Int × Bool) :=
+  if c ≤ 64 then some (c, false)
+  else if c > 2048 ∧ Int.tdiv c (nz l) ≥ 2 then some (Int.tdiv (c * 5) 8, true)
+  else if c ≤ 2048 ∧ Int.tdiv c (nz l) ≥ 4 then some (Int.tdiv c 2, true)
+  else some (c, false)
+
+theorem calCapacity_eq_ref (c l : Int) : Ekit.Gen.calCapacity c l = calCapacityRef c l := by
+  unfold Ekit.Gen.calCapacity calCapacityRef goDiv nz
+  by_cases h64 : c ≤ 64
+  · simp [h64]
+  · by_cases hl : l = 0
+    · by_cases h2048 : c > 2048 <;> simp [h64, hl, h2048] <;> (try split) <;> simp_all <;> omega
+    · by_cases h2048 : c > 2048
+      · have : ¬ c ≤ 2048 := by omega
+        simp [h64, hl, h2048, this]
+      · have : c ≤ 2048 := by omega
+        simp [h64, hl, h2048, this]
 
 theorem calCapacity_isSome (c l : Int) : (Ekit.Gen.calCapacity c l).isSome = true := by
-  unfold Ekit.Gen.calCapacity goDiv
-  by_cases h : c ≤ 64
-  · simp [h]
-  · by_cases hl : l = 0
-    · subst hl; simp [h]; split <;> (try split) <;> simp
-    · simp [h, hl]; split <;> (try split) <;> simp
+  rw [calCapacity_eq_ref]
+  unfold calCapacityRef
+  repeat' split
+  all_goals rfl
 
 theorem calCapacity_nonneg (c l n : Int) (b : Bool) (hc0 : 0 ≤ c)
     (h : Ekit.Gen.calCapacity c l = some (n, b)) : 0 ≤ n := by
-  unfold Ekit.Gen.calCapacity goDiv at h
+  rw [calCapacity_eq_ref] at h
+  unfold calCapacityRef at h
   have e5 : Int.tdiv (c * 5) 8 = (c * 5) / 8 := Int.tdiv_eq_ediv_of_nonneg (by omega)
   have e2 : Int.tdiv c 2 = c / 2 := Int.tdiv_eq_ediv_of_nonneg hc0
-  split at h
-  · simp at h; omega
-  · simp only [] at h
-    split at h
-    all_goals (simp at h)
-    all_goals (repeat' (split at h))
-    all_goals (simp at h)
-    all_goals omega
+  repeat' (split at h)
+  all_goals (simp at h; omega)
 
 theorem calCapacity_changed_ge (c l n : Int) (hl : 0 ≤ l) (hc : l ≤ c)
     (h : Ekit.Gen.calCapacity c l = some (n, true)) : l ≤ n ∧ 0 ≤ n := by
-  unfold Ekit.Gen.calCapacity goDiv at h
-  by_cases h64 : c ≤ 64
-  · simp [h64] at h
-  · simp only [h64, if_false] at h
-    have hc0 : 0 ≤ c := by omega
-    have e5 : Int.tdiv (c * 5) 8 = (c * 5) / 8 := Int.tdiv_eq_ediv_of_nonneg (by omega)
-    have e2 : Int.tdiv c 2 = c / 2 := Int.tdiv_eq_ediv_of_nonneg hc0
-    by_cases hl0 : l = 0
-    · subst hl0
-      simp at h
-      split at h
-      · simp at h; omega
-      · split at h
-        · simp at h; omega
-        · simp at h
-    · have hlpos : 0 < l := by omega
-      have el : Int.tdiv c l = c / l := Int.tdiv_eq_ediv_of_nonneg hc0
-      simp [hl0] at h
-      split at h
+  rw [calCapacity_eq_ref] at h
+  unfold calCapacityRef at h
+  have hc0 : 0 ≤ c := by omega
+  have e5 : Int.tdiv (c * 5) 8 = (c * 5) / 8 := Int.tdiv_eq_ediv_of_nonneg (by omega)
+  have e2 : Int.tdiv c 2 = c / 2 := Int.tdiv_eq_ediv_of_nonneg hc0
+  have hnzpos : 0 < nz l := by unfold nz; split <;> omega
+  have hnzge : l ≤ nz l := by unfold nz; split <;> omega
+  have el : Int.tdiv c (nz l) = c / (nz l) := Int.tdiv_eq_ediv_of_nonneg hc0
+  split at h
+  · simp at h
+  · split at h
+    · rename_i hh
+      obtain ⟨h1, h2⟩ := hh
+      rw [el] at h2
+      have : 2 * (nz l) ≤ c := (Int.le_ediv_iff_mul_le hnzpos).mp h2
+      simp at h; omega
+    · split at h
       · rename_i hh
-        simp at h
         obtain ⟨h1, h2⟩ := hh
         rw [el] at h2
-        have : 2 * l ≤ c := (Int.le_ediv_iff_mul_le hlpos).mp h2
-        omega
-      · split at h
-        · rename_i hh
-          simp at h
-          obtain ⟨h1, h2⟩ := hh
-          rw [el] at h2
-          have : 4 * l ≤ c := (Int.le_ediv_iff_mul_le hlpos).mp h2
-          omega
-        · simp at h
+        have : 4 * (nz l) ≤ c := (Int.le_ediv_iff_mul_le hnzpos).mp h2
+        simp at h; omega
+      · simp at h
 
 end Ekit.Lists
